@@ -9,9 +9,9 @@ VAL = {"f64": {"$f": 2.5}, "f64int": {"$f": 3.0}, "f32": {"$f32": 2.5}, "int": {
        "i8": {"$i8": 3}, "i16": {"$i16": 3}, "u8": {"$u8": 3}, "u16": {"$u16": 3}, "nan": {"$nan": 1}, "pinf": {"$inf": 1}, "ninf": {"$inf": -1},
        "p53": {"$big": "9007199254740992", "t": "int64"}, "p53p1": {"$big": "9007199254740993", "t": "int64"}, "maxi64": {"$big": "9223372036854775807", "t": "int64"},
        "maxu64": {"$big": "18446744073709551615", "t": "uint64"}, "numstr": "3", "text": "ab", "boolt": True, "null": None,
-       "f32x": {"$f32": 2.3}, "f32y": {"$f32": 0.1}, "f64x": {"$f": 2.3}}      # float32 values that are no binary fractions: widened as float64(x), not through their decimal spelling
+       "f32x": {"$f32": 2.3}, "f32y": {"$f32": 0.1}, "f64x": {"$f": 2.3}, "tabtext": "a\tb", "rawtext": "a\\tb"}      # float32 values that are no binary fractions: widened as float64(x), not through their decimal spelling
 LIT = {"int": "3", "neg": "-3", "frac": "2.5", "big": "9007199254740992", "str": "'ab'", "strnum": "'3'"}
-LITX = dict(LIT, fracx="2.3", fracy="0.1")      # chains only (the single-comparison space is the TLA+ model's)
+LITX = dict(LIT, fracx="2.3", fracy="0.1", big1="9007199254740993", esc="'a\\tb'")      # an integer literal beyond 2^53; a text literal with an escape sequence      # chains only (the single-comparison space is the TLA+ model's)
 
 
 def row(kinds):
@@ -85,7 +85,7 @@ def run(tier):
             gen += " %s (%s)" % (cn, term(*t))
         rows = []
         for _r in range(4):
-            ks = {c: (rng.choice(["int", "f64", "f64int", "text", "numstr", "f32x", "f32y", "f64x"]) if rng.random() < 0.6 else rng.choice(kinds)) for c in cols}
+            ks = {c: (rng.choice(["int", "f64", "f64int", "text", "numstr", "f32x", "f32y", "f64x", "p53", "p53p1", "tabtext", "rawtext"]) if rng.random() < 0.6 else rng.choice(kinds)) for c in cols}
             rows.append(row(ks))
         sqlw = flat.replace("&&", "AND").replace("||", "OR").replace("==", "=")
         alt = rterm(*terms[0])
